@@ -254,6 +254,12 @@ def check(case):
             check_round(case, state)
         except PropertyViolation as v:
             raise PropertyViolation("after-second-inplace-update:" + v.bucket, "after a second in-place parameter update (back to the first values): " + v.message, v.detail)
+    if not r.get("excluded"):
+        gen.reinit_and_set(state, case["state"])
+        try:
+            check_round(case, state)
+        except PropertyViolation as v:
+            raise PropertyViolation("after-reinitialise:" + v.bucket, "after reinitialize_parameters() and writing the parameters again: " + v.message, v.detail)
     if case["state"].get("unitaries2"):
         # history: the state loads a file written by a twin with the same parameters but OTHER user unitaries for the same letters;
         # from then on gradients in rotated bases must follow the loaded dictionary
